@@ -2,7 +2,7 @@
 From GM Require Import Base.Prelude Base.Outcome Codec.Packets Codec.Settings Engine.Model
   EngineProofs.AssocLemmas EngineProofs.PacketIds EngineProofs.WFLemmas EngineProofs.WFDefs EngineProofs.WFCore
   EngineProofs.WFComplete EngineProofs.WFClose EngineProofs.WFClose2 EngineProofs.WFService EngineProofs.WFService4
-  EngineProofs.WFEvents EngineProofs.WFData.
+  EngineProofs.WFEvents EngineProofs.WFData EngineProofs.WFTrack.
 From Coq Require Import Sorting.Sorted Sorting.Permutation.
 From RecordUpdate Require Import RecordSet.
 Import RecordSetNotations.
@@ -106,9 +106,10 @@ Section Session2.
   Lemma sess_tail_spec (s2 : state) d out :
     WFS s2 -> s_hq s2 = [] -> s_ppub s2 = [] -> s_pnon s2 = [] -> s_tmo s2 = [] -> s_pwco s2 = [] ->
     let r := sess_tail s2 d out in
-    r_out r = out /\ WFS (r_s r) /\ sess_keep (r_s r) = sess_keep s2 /\ s_ops (r_s r) = s_ops s2.
+    r_out r = out /\ WFS (r_s r) /\ sess_keep (r_s r) = sess_keep s2 /\ s_ops (r_s r) = s_ops s2 /\ (TR s2 -> TR (r_s r)).
   Proof.
     intros HW E1 E2 E3 E4 E5. unfold sess_tail. cbn. rewrite E1, E2, E3, E4, E5. cbn. splits; try reflexivity.
+    2:{ apply TR_queues; [reflexivity|]. unfold inQ. cbn. intros i Q _. rewrite !sort_In. exact Q. }
     eapply WFS_queues; [exact HW| | | | | | | | | | |]; cbn; auto; try tauto.
     - core_cbn. cbn. intros p i o Hi Hp T. rewrite !sort_In. exact T.
     - core_cbn. cbn. intros i. rewrite !sort_In. tauto.
@@ -132,6 +133,39 @@ Section Session2.
     sess_tail (fold_left unbind (s_uq (r_s r1)) (r_s r1)) (r_done r1) (r_out r1).
   Proof. unfold apply_session, sess_head, sess_tail. Timeout 60 reflexivity. Qed.
 
+  Lemma unb_ok_set_dup_false o : unb_ok o -> unb_ok (set_dup false o).
+  Proof.
+    intros (U1 & U2). destruct (set_dup_fields false o) as (_ & F2 & _). unfold unb_ok. rewrite F2. split; [exact U1|].
+    destruct (set_dup_packet false o) as [(pb & pb' & E1 & E2 & E3 & _)|[_ E2]].
+    - intros pb0 H0. rewrite E2 in H0. inversion H0; subst. left. exact E3.
+    - rewrite E2. exact U2.
+  Qed.
+
+  Lemma unb_ok_iter n o : unb_ok o -> unb_ok (Nat.iter n (set_dup false) o).
+  Proof. intros H. induction n as [|n IH]; [exact H|]. change (Nat.iter (S n) (set_dup false) o) with (set_dup false (Nat.iter n (set_dup false) o)). apply unb_ok_set_dup_false. exact IH. Qed.
+
+  Lemma TR_unbind_all X (s : state) :
+    WFSx X s -> s_ppub s = [] -> s_pnon s = [] -> TR s -> TR (fold_left unbind (s_uq s) s).
+  Proof.
+    intros HW Epp Epn HT. destruct (unbind_all_spec X (s_uq s) s HW Epp Epn) as (U1 & U2 & U3 & U4 & U5 & U6).
+    pose proof (unbind_all_packet (s_uq s) s) as UP.
+    set (s2 := fold_left unbind (s_uq s) s) in *. clearbody s2. unfold but_oa in U2. tuple_eqs U2.
+    assert (Hq : forall i, inQ s i -> inQ s2 i).
+    { unfold inQ. intros i Q. replace (s_uq s2) with (s_uq s) by congruence. replace (s_rq s2) with (s_rq s) by congruence.
+      replace (s_hq s2) with (s_hq s) by congruence. replace (s_cur s2) with (s_cur s) by congruence.
+      replace (s_pwco s2) with (s_pwco s) by congruence. exact Q. }
+    apply (TR_gen s s2 HT). intros i o' Hi Hp.
+    destruct (UP i o' Hi) as (o & Ho & P1 & P2). destruct (U5 i o' Hi) as (o0 & Ho0 & Q1 & Q2 & Q3 & Q4).
+    assert (o0 = o) by congruence. subst o0.
+    destruct (op_pid o) as [p|] eqn:Hpo.
+    - left. destruct (in_dec N.eq_dec i (s_uq s)) as [Hin|Hnin].
+      + split; [apply Hq; unfold inQ; tauto|]. destruct (Q3 Hin) as (_ & Hpr). split; [exact Hpr|].
+        intros pb' Hpb. right. apply (P2 Hp); [discriminate|exact Hpb].
+      + exfalso. rewrite (Q4 Hnin) in Hp. congruence.
+    - right. exists o. destruct (P1 eq_refl) as (_ & Epk). destruct (HT i o Ho Hpo) as (_ & Hpr & _).
+      split; [exact Ho|]. split; [exact Hpo|]. split; [exact Epk|]. split; [rewrite Hpr; apply Q2; exact Hpr|apply Hq].
+  Qed.
+
   Record mid_spec (s s2 : state) : Prop := mkMid {
     md_wfs : WFS s2;
     md_w9 : W9 cfg s2;
@@ -139,6 +173,7 @@ Section Session2.
     md_st : s_st s2 = s_st s; md_settings : s_settings s2 = s_settings s; md_cur : s_cur s2 = s_cur s;
     md_enc : s_enc s2 = s_enc s;
     md_comp : comp_of s2 = comp_of s;
+    md_tr : TR s -> TR s2;
     md_gone : forall i, getop s i = None -> getop s2 i = None }.
 
   Lemma sess_mid_present (s : state) :
@@ -147,6 +182,7 @@ Section Session2.
   Proof.
     intros HW H9 E1 E2 E3 E4 E5.
     destruct (unbind_all_spec [] (s_uq s) s HW E2 E3) as (U1 & U2 & U3 & U4 & U5 & U6).
+    pose proof (TR_unbind_all [] s HW E2 E3) as UT.
     set (s2 := fold_left unbind (s_uq s) s) in *. clearbody s2.
     unfold but_oa in U2. tuple_eqs U2.
     constructor; try congruence; auto; try (unfold comp_of; congruence).
@@ -195,6 +231,7 @@ Section Session2.
     { destruct (fc_st _ _ _ (fs_frame _ _ _ _ _ F)) as [E|[E _]]; [exact E|]. cbn in E. congruence. }
     (* unbinding in the state that still has its packet-id table *)
     destruct (unbind_all_spec X (s_uq (r_s r)) (r_s r) (fs_wfs _ _ _ _ _ F) EppA EpnA) as (U1 & U2 & U3 & U4 & U5 & U6).
+    pose proof (TR_unbind_all X (r_s r) (fs_wfs _ _ _ _ _ F) EppA EpnA) as UTA.
     (* ... and in the real one, where the table was cleared first *)
     set (sA' := (r_s r) <| s_q2in := [] |> <| s_alloc := [] |>).
     destruct (unbind_all_comm (s_uq (r_s r)) (r_s r) sA' eq_refl eq_refl) as (C1 & C2).
@@ -250,6 +287,25 @@ Section Session2.
     - replace (s_enc s2') with (s_enc (r_s r)) by congruence. rewrite R11. reflexivity.
     - transitivity (comp_of (r_s r)); [unfold comp_of; congruence|].
       rewrite (rest_comp _ _ (fc_rest _ _ _ (fs_frame _ _ _ _ _ F))). reflexivity.
+    - intros T.
+      assert (TA : TR (r_s r)).
+      { apply (TR_gen s _ T). intros i o1 Hi Hp. left.
+        pose proof (fc_sub _ _ _ (fs_frame _ _ _ _ _ F) _ _ Hi) as Hi1. unfold getop in Hi1. cbn in Hi1.
+        change (fold_left _ kept (s_ops s)) with (upd_all (set_dup false) kept (s_ops s)) in Hi1.
+        destruct (lookup_upd_all (set_dup false) kept (s_ops s) i) as (n & Hn & _). rewrite Hn in Hi1.
+        destruct (lookup i (s_ops s)) as [o0|] eqn:Ho0; [|discriminate]. inversion Hi1; subst o1.
+        assert (Hp0 : op_pid o0 = None).
+        { rewrite <- Hp. symmetry. apply (iter_pres (set_dup false) op_pid). intros a. apply set_dup_fields. }
+        destruct (T i o0 Ho0 Hp0) as (Q & Uo). split; [|apply unb_ok_iter; exact Uo].
+        unfold inQ. rewrite R1, R2, R3, R4, R5. cbn. destruct Q as [Q|[Q|[Q|[Q|Q]]]]; try tauto; [left; apply in_or_app; tauto|].
+        left. apply in_or_app. right.
+        assert (He : op_exists s i = true) by (unfold op_exists; rewrite Ho0; reflexivity).
+        destruct (partition_cases cfg s (s_rq s) i Q He) as [Hk|Hk]; rewrite Epart in Hk; cbn [fst snd] in Hk; [exact Hk|].
+        pose proof (fs_gone _ _ _ _ _ F i Hk) as Hg. congruence. }
+      pose proof (UTA TA) as T2. apply (TR_queues s2); [congruence| |exact T2].
+      unfold inQ. intros i Q _. replace (s_uq s2') with (s_uq s2) by congruence. replace (s_rq s2') with (s_rq s2) by congruence.
+      replace (s_hq s2') with (s_hq s2) by congruence. replace (s_cur s2') with (s_cur s2) by congruence.
+      replace (s_pwco s2') with (s_pwco s2) by congruence. exact Q.
     - intros i Hi. unfold getop. replace (s_ops s2') with (s_ops s2) by congruence. apply U6.
       eapply getop_none_frame; [apply F|]. apply Hs1s. exact Hi.
   Qed.
@@ -261,7 +317,7 @@ Section Session2.
     let r := apply_session cfg s sp in
     (forall site, r_out r <> Panic site) /\ WFS (r_s r) /\ W9 cfg (r_s r) /\ s_st (r_s r) = Connected /\
     s_settings (r_s r) = s_settings s /\ s_cur (r_s r) = s_cur s /\ s_enc (r_s r) = s_enc s /\
-    (forall i, s_cur s = Some i -> getop (r_s r) i = None) /\ comp_of (r_s r) = comp_of s.
+    (forall i, s_cur s = Some i -> getop (r_s r) i = None) /\ comp_of (r_s r) = comp_of s /\ (TR s -> TR (r_s r)).
   Proof.
     intros HW H9 Hst E1 E2 E3 E4 E5 Hcur. rewrite apply_session_unfold. cbv zeta.
     assert (Hmid : (forall site, r_out (sess_head s sp) <> Panic site) /\
@@ -271,8 +327,8 @@ Section Session2.
       - apply sess_mid_absent; assumption. }
     destruct Hmid as (N1 & M). rewrite (nopanic_is_panic _ N1).
     set (r1 := sess_head s sp) in *. set (s2 := fold_left unbind (s_uq (r_s r1)) (r_s r1)) in *. clearbody s2.
-    destruct M as [M1 M2 M3 M4 M5 M6 M7 M8 M9 M10 M11 M13 M12].
-    destruct (sess_tail_spec s2 (r_done r1) (r_out r1) M1 M3 M4 M5 M6 M7) as (T1 & T2 & T3 & T4).
+    destruct M as [M1 M2 M3 M4 M5 M6 M7 M8 M9 M10 M11 M13 M14 M12].
+    destruct (sess_tail_spec s2 (r_done r1) (r_out r1) M1 M3 M4 M5 M6 M7) as (T1 & T2 & T3 & T4 & T5).
     set (r := sess_tail s2 (r_done r1) (r_out r1)) in *. clearbody r.
     unfold sess_keep in T3. tuple_eqs T3.
     splits; try congruence; auto.
